@@ -4,25 +4,25 @@ import os
 from vf import Inconclusive, parallel, require_clean, validate_traces, vfj_lines, b2s
 
 CLAIM = {
-    "text": "Inputs.tla specifies one invocation over a file-system tree: expansion of every argument into mentions (path, glob with literal fallback, -R walk of regular files, '-'/none = <stdin>), the result of opening/reading each mention (plain, gzip under -z with fallback to byte 0, corrupt/truncated gzip, directory-as-file, missing) independently of its transport (regular file; FIFO, /dev/stdin, process substitution: cannot be rewound, report size 0), the output rows, the read-error count, the exit status with its precedence, and the resource bound: never more than --readers inputs open, whatever the number of mentions and the descriptor limit. TLC (a) decides relational laws of that specification over the whole bounded universe (per-argument additivity, walk completeness, nothing dropped, read-once multiplicity, fault isolation, -z transparency, decoding, transport transparency, independence of the descriptor limit, exit precedence), (b) explores every interleaving of the implementation-shaped reader life cycle InputsLife (expansion goroutine, semaphore dispatcher, open taking a descriptor / probe by gzip.NewReader resp. by peeking through a recorder on a pipe / rewind resp. replay / read / error / close / release) for every scenario and shows semaphore bound, descriptor bound open <= readers <= MaxFd (hence no readable input fails to open), no leak, termination and that the final deliveries/error count/exit status are exactly those of Inputs - and refutes five deliberately broken designs (slot leak on open error, open before the slot, probe of a pipe without recorder, with Seek, skipped for reported size 0), (c) enumerates every scenario with its demanded outcome, which the harness materialises on disk (FIFOs with driver-side writers, inherited pipes/files for /dev/stdin and /dev/fd/3) and runs through the REAL rare binary (filter and histogram --csv) and the batcher library, comparing rows, exit status, final message, reported errors, summary, ReadErrors() and - while a FIFO input holds its reader slot - the number of inputs the process has open (/proc/<pid>/fd); all observations, seeded random larger trees, and runs with MORE inputs than a lowered RLIMIT_NOFILE whose reader slots are all held by FIFOs, are validated record by record by TLC (Inputs_Trace).",
-    "note": "Bounded: exhaustive within the universe of InputsUniv (7-node skeleton tree, one varied slot incl. FIFO variants, one external input /dev/stdin or /dev/fd/3, 19 argument forms, <=2 arguments); beyond that seeded random trees (<=4 levels, <=60 files, FIFOs, inherited descriptors) and descriptor-limit runs (30-60 inputs, limit readers+16..21). Glob syntax: * and ? and literals only. Without -z nothing is demanded about compressed files; '-' only as the sole argument; -z with '-' not covered. A pipe is mentioned at most once and never reached by a -R walk. Permission errors are not producible as root. Trusted: filepath.Glob/Walk, compress/gzip, Go regexp, encoding/csv, the OS.",
+    "text": "Inputs.tla specifies one invocation over a file-system tree: expansion of every argument into mentions (path, glob with literal fallback, -R walk of regular files, '-'/none = <stdin>), the result of opening/reading each mention (plain, gzip under -z with fallback to byte 0, corrupt/truncated gzip, directory-as-file, missing) independently of its transport (regular file; FIFO, /dev/stdin, process substitution: cannot be rewound, report size 0), the output rows, the read-error count, the exit status with its precedence, and the resource bound: never more than --readers inputs open, whatever the number of mentions and the descriptor limit. TLC (a) decides relational laws of that specification over the whole bounded universe (per-argument additivity, walk completeness, nothing dropped, read-once multiplicity, fault isolation, -z transparency, decoding, transport transparency, independence of the descriptor limit, exit precedence), (b) explores every interleaving of the implementation-shaped reader life cycle InputsLife (expansion goroutine, semaphore dispatcher, open taking a descriptor / probe by gzip.NewReader resp. by peeking through a recorder on a pipe / rewind resp. replay / read / error / close / release) for every scenario and shows semaphore bound, descriptor bound open <= readers <= MaxFd (hence no readable input fails to open), no leak, termination and that the final deliveries/error count/exit status are exactly those of Inputs - and refutes five deliberately broken designs (slot leak on open error, open before the slot, probe of a pipe without recorder, with Seek, skipped for reported size 0), (c) enumerates every scenario with its demanded outcome, which the harness materialises on disk (FIFOs with driver-side writers, inherited pipes/files for /dev/stdin and /dev/fd/3) and runs through the REAL rare binary (filter and histogram --csv) and the batcher library, comparing rows, exit status, final message, reported errors, summary, ReadErrors() and - while a FIFO input holds its reader slot - the number of inputs the process has open (/proc/<pid>/fd); all observations, seeded random larger trees, and runs with MORE inputs than a lowered RLIMIT_NOFILE whose reader slots are all held by FIFOs, are validated record by record by TLC (Inputs_Trace). Gzip inputs are also MULTI-MEMBER files (cat a.gz b.gz, gzip -c >>: 2-4 members, empty members, lines spanning members; the life cycle decodes member after member, a decompressor that stops after the first member is refuted). The -R walk is also written like filepath.Walk + callback over trees that hold non-regular entries (FIFO, socket, symbolic link to a file / a directory / nothing, device node) before, between and after the regular files and sub-directories: every regular file below the directory is mentioned exactly once whatever the callback does with such entries (law LWalkImpl; a callback answering SkipDir for them is refuted); what the entry itself yields is not judged (rows under its name ignored, at most one read error each, the allowed ends of the run computed by the specification). Inputs larger than any read buffer or probe window have SYMBOLIC contents (InputsBig: optional first line, n fixed-width numbered records, unterminated tail; laws tie the symbolic lines to LinesOf of the bytes and show that a line end falls on / one byte next to every multiple of every window size the record width divides); TLC enumerates a corpus over several powers of two (16 KiB ... 256 KiB, 4 KiB, 32 KiB; files of 2 windows +- records, shifted by 1, w-1, 7 bytes; plain, plain under -z, gzip, multi-member gzip cut next to the window, FIFO, standard input, three inputs at once) with the demanded run-length observation, replayed on the real binary and the batcher library (lines looked at only after the input ended) and validated by InputsBig_Trace. InputsBuf (the byte-level scanner + reader loop + batch channel + worker + consumer of PipelineBuf) shows for every chunking and buffer size within the bounds that the consumer sees exactly LinesOf(input); recycling a full, completely consumed buffer in place is refuted.",
+    "note": "Bounded: exhaustive within the universe of InputsUniv (7-node skeleton tree, one varied slot incl. FIFO variants, one external input /dev/stdin or /dev/fd/3, 19 argument forms, <=2 arguments); beyond that seeded random trees (<=4 levels, <=60 files, FIFOs, inherited descriptors) and descriptor-limit runs (30-60 inputs, limit readers+16..21). Glob syntax: * and ? and literals only. Without -z nothing is demanded about compressed files; '-' only as the sole argument; -z with '-' not covered. A pipe is mentioned at most once and never reached by a -R walk. Non-regular entries are in the domain only as passers-by of a -R walk (not named by an argument or hit by a glob; a FIFO passed at most once; a symbolic link to a directory points to an empty directory). Big inputs: record widths 64 and 1024, sizes <= 768 KiB; the expectation is symbolic (run-length form of numbered records), the driver's renderer is checked against TLC's bytes for 54 small descriptors. Permission errors are not producible as root. Trusted: filepath.Glob/Walk, compress/gzip, Go regexp, encoding/csv, the OS.",
     "technique": "TLA+ model checking (TLC): functional oracle + life-cycle state machine with resource bound and refuted broken designs, model-outcome replay on the real binary, trace validation",
 }
 
-LIFE_INV = "SemaOK FdOK ErrsOK LinesOnce FinalOK NoStall"
-LAWS = ("LDomain LAdditive LWalk LLiteral LOnce LTwice LIsolation LMissing LPlainUnderZ LDecoded LExit "
-        "LTransport LLimit")
+LIFE_INV = "SemaOK FdOK ErrsOK LinesOnce MembersOK FinalOK NoStall"
+LAWS = ("LDomain LAdditive LWalk LWalkImpl LSpecial LMembers LLiteral LOnce LTwice LIsolation LMissing LPlainUnderZ "
+        "LDecoded LExit LTransport LLimit")
 LIFE_ACTIONS = ("Produce", "Dispatch", "OpenFail", "Open", "Probe", "Rewind", "ReadLine", "ReadErr", "ReadEnd",
                 "Release", "Close")
 
 
-def life_cfg(level, pairs, sel="all", part=0, nparts=1, leak=False, openfirst=False, pipeprobe="record"):
+def life_cfg(level, pairs, sel="all", part=0, nparts=1, leak=False, openfirst=False, pipeprobe="record", multi="all"):
     """InputsLife: the design (all defaults) or one of the deliberately broken designs."""
     return ("SPECIFICATION Spec\nCONSTANTS Level = %d\n ProbeLen = 3\n Leak = %s\n LifePairs = {%s}\n"
-            " LifeSel = \"%s\"\n Part = %d\n NParts = %d\n MaxFd = 2\n OpenFirst = %s\n PipeProbe = \"%s\"\n"
+            " LifeSel = \"%s\"\n Part = %d\n NParts = %d\n MaxFd = 2\n OpenFirst = %s\n PipeProbe = \"%s\"\n Multi = \"%s\"\n"
             "INVARIANTS %s\nPROPERTIES Terminates\n" % (
                 level, "TRUE" if leak else "FALSE", ", ".join(map(str, pairs)), sel, part, nparts,
-                "TRUE" if openfirst else "FALSE", pipeprobe, LIFE_INV))
+                "TRUE" if openfirst else "FALSE", pipeprobe, multi, LIFE_INV))
 
 
 # the broken designs TLC must refute (sensitivity of the life-cycle model): label -> (cfg kwargs, pairs)
@@ -32,6 +32,7 @@ BROKEN = [
     ("PipeProbe=norecord: what the failed header check consumed from a pipe is lost", dict(sel="pipes", pipeprobe="norecord"), (1,)),
     ("PipeProbe=seek: a pipe is probed and rewound like a regular file", dict(sel="pipes", pipeprobe="seek"), (1,)),
     ("PipeProbe=sizeskip: no gzip probe when the reported size is 0", dict(sel="pipes", pipeprobe="sizeskip"), (1,)),
+    ("Multi=first: the decompressor stops at the end of the first gzip member", dict(sel="members", multi="first"), (1,)),
 ]
 
 
@@ -40,7 +41,7 @@ def part_cfg(kind, level, part, nparts):
         return ("INIT GInit\nNEXT GNext\nCONSTANTS Level = %d\n Part = %d\n NParts = %d\nINVARIANTS Dump\n"
                 "CHECK_DEADLOCK FALSE\n" % (level, part, nparts))
     return ("INIT MInit\nNEXT MNext\nCONSTANTS Level = %d\n Part = %d\n NParts = %d\nINVARIANTS %s\n"
-            "CHECK_DEADLOCK FALSE\n" % (level, part, nparts, LAWS))
+            "CHECK_DEADLOCK FALSE\n" % (level, part, nparts, LAWS if kind == "mc" else kind))
 
 
 SEEN = {}
@@ -148,6 +149,9 @@ def check(run):
         "every failing input is reported by a [Log] line on stderr: lines in today's wording ('Error opening file <p>' / 'Error reading <p>') never outnumber the failures, and together with [Log] lines of unknown wording they are at least as many (so re-wording a report is accepted, dropping or duplicating one is not); the exact count is Batcher.ReadErrors(); final message '[Log] Read errors' / '[Log] Parse errors' (pinned by the repository's own tests)",
         "running as root: permission errors are not producible; faults used: missing path, path below a regular file, directory as file, directory as stdin, corrupt / checksum-damaged / truncated gzip",
         "inputs that cannot be rewound and report size 0 (FIFO in the tree, /dev/stdin, /dev/fd/3 = process substitution; fed from a pipe, the last two also from a regular file) are in the domain when mentioned at most once and not reached by a -R walk (the property speaks of regular files there); they must deliver exactly what the regular file with the same bytes delivers",
+        "non-regular directory entries (FIFO, unix socket, symbolic links, device node) below a -R directory: the property demands the REGULAR files around them, each exactly once; whether such an entry is itself opened, what it delivers and whether it counts as a read error is not judged (the unchanged code sends every non-directory to the readers: a socket / dangling link is reported as an open error, a link to a directory as a read error, a FIFO and a link to a file are read)",
+        "multi-member gzip files deliver the concatenation of all members (RFC 1952 2.2: a gzip file consists of a series of members); trailing non-gzip garbage after a member is not in the domain",
+        "big inputs are judged in symbolic form: a delivered line is classified by comparing it with the rendering of the record number it starts with; the renderer is the one that materialises the input and is checked against InputsBig!BigBytes; window sizes are powers of two between 4 KiB and 256 KiB - no constant of the implementation is used",
         "descriptors: at most --readers mentioned inputs (non-directories) are open for reading at the same time, counted from /proc/<pid>/fd while FIFO inputs hold the reader slots (a count stands only if three consecutive samples reach it); under a descriptor limit of at least readers + 16 no readable input may fail (the unchanged binary needs readers + 5)",
     ]
     rare = run.build_cli()
@@ -183,12 +187,67 @@ def check(run):
     # sensitivity of the model: each broken design must be refuted
     broken = [lambda b=b: run.tlc("InputsLife", life_cfg(1, b[2], **b[1]), workers=1, timeout=3000, xmx="3g",
                                   label="InputsLife broken design (must be refuted): " + b[0]) for b in BROKEN]
-    res = parallel([rnd_drv, fd_drv] + broken + gens, 7 if quick else 5)
-    for b, r in zip(BROKEN, res[2:2 + len(BROKEN)]):
+    # ... and the walk whose callback answers filepath.SkipDir for a FIFO / socket / device node
+    walk_ctl = lambda: run.tlc("Inputs_MC", "INIT MInitSpecial\nNEXT MNext\nCONSTANTS Level = 1\n Part = 0\n NParts = 1\n"
+                               "INVARIANTS CtlWalkSkipdir\nCHECK_DEADLOCK FALSE\n", workers=1, timeout=3000, xmx="3g",
+                               label="Inputs_MC broken walk (must be refuted): SkipDir answered for a non-regular entry")
+    broken.append(walk_ctl)
+    BROKEN_ALL = BROKEN + [("WalkSkipdir: the walk callback answers SkipDir for a FIFO / socket / device node", {}, ())]
+    # inputs larger than any read buffer / probe window: symbolic contents (InputsBig), corpus enumerated by TLC
+    big_vec = os.path.join(run.scratch, "c06-big-vectors.ndjson")
+    big_out = os.path.join(run.scratch, "c06-big.json")
+    big_tr = os.path.join(run.scratch, "c06-big-trace.ndjson")
+
+    def big_job():
+        r = run.tlc("InputsBig_Gen", "INIT GInit\nNEXT GNext\nCONSTANTS Level = %d\nINVARIANTS Dump\nCHECK_DEADLOCK FALSE\n" % level,
+                    workers=1, timeout=3000, xmx="2g", label="InputsBig_Gen Level=%d" % level)
+        if r.violated or r.errors:
+            raise Inconclusive("generator of the big inputs failed: %s" % r.out[-2000:])
+        with open(big_vec, "w") as f:
+            for v in vfj_lines(r.out):
+                f.write(json.dumps(v, separators=(",", ":")) + "\n")
+        run.drv(["big", "-in", big_vec, "-out", big_out, "-trace", big_tr, "-rare", rare,
+                 "-work", os.path.join(run.scratch, "w4"), "-par", 4], timeout=3000)
+        return r
+    mcb = "INIT BInit\nNEXT BNext\nCONSTANTS MaxW = %d\n MaxN = %d\n MaxB = %d\nINVARIANTS %%s\nCHECK_DEADLOCK FALSE\n" % (
+        (4, 4, 8) if quick else (6, 6, 12))
+    pbuf = ("SPECIFICATION PSpec\nCONSTANTS Alphabet = {97, 98, 10}\n MaxLen = %d\n BufSize = %d\n MaxStall = 0\n PBatch = 2\n"
+            " PCap = 1\n Reuse = \"%s\"\nINVARIANTS %s\nCHECK_DEADLOCK FALSE\n")
+    extras = [
+        big_job,
+        lambda: run.tlc("InputsBig_MC", mcb % "Layout RunsLaw Geometry Distinct", workers=1, timeout=3000, xmx="2g",
+                        label="InputsBig_MC laws of the symbolic contents"),
+        lambda: run.tlc("InputsBig_MC", mcb % "CtlNoDivides", workers=1, timeout=3000, xmx="2g",
+                        label="InputsBig_MC control (must be refuted): window boundary hit without the divisibility premise"),
+        lambda: run.tlc("InputsBuf", pbuf % (4 if quick else 5, 2, "never", "CompleteOK PrefixOK6"), workers=2, timeout=3000, xmx="3g",
+                        label="InputsBuf reuse=never (the code): complete delivery for every chunking"),
+        lambda: run.tlc("InputsBuf", pbuf % (4, 2, "free", "CompleteOK PrefixOK6"), workers=2, timeout=3000, xmx="3g",
+                        label="InputsBuf reuse=free (admissible): complete delivery"),
+        lambda: run.tlc("InputsBuf", pbuf % (4, 2, "always", "CompleteOK PrefixOK6"), workers=1, timeout=3000, xmx="3g",
+                        label="InputsBuf broken design (must be refuted): full and completely consumed buffer recycled in place"),
+        lambda: run.tlc("InputsBuf", pbuf % (4, 2, "never", "NeverFullAndConsumed"), workers=1, timeout=3000, xmx="3g",
+                        label="InputsBuf coverage (must be refuted): a line end on the last byte of a full buffer is reachable"),
+    ] + ([] if quick else [
+        lambda: run.tlc("InputsBuf", pbuf % (5, 3, "never", "CompleteOK PrefixOK6"), workers=2, timeout=3000, xmx="3g",
+                        label="InputsBuf reuse=never BufSize=3"),
+        lambda: run.tlc("InputsBuf", pbuf % (5, 1, "never", "CompleteOK PrefixOK6"), workers=2, timeout=3000, xmx="3g",
+                        label="InputsBuf reuse=never BufSize=1"),
+    ])
+    res = parallel([rnd_drv, fd_drv] + broken + gens + extras, 7 if quick else 5)
+    for b, r in zip(BROKEN_ALL, res[2:2 + len(BROKEN_ALL)]):
         if not r.violated:
-            raise Inconclusive("the life-cycle model does not refute the broken design '%s': %s" % (b[0], r.out[-1500:]))
-    run.cov["broken_designs_refuted"] = [b[0] for b in BROKEN]
-    res = res[2 + len(BROKEN):]
+            raise Inconclusive("the model does not refute the broken design '%s': %s" % (b[0], r.out[-1500:]))
+    run.cov["broken_designs_refuted"] = [b[0] for b in BROKEN_ALL]
+    res = res[2 + len(BROKEN_ALL):]
+    xres = res[nparts:]
+    res = res[:nparts]
+    for i, want in ((1, False), (2, True), (3, False), (4, False), (5, True), (6, True)) + (() if quick else ((7, False), (8, False))):
+        if want and not xres[i].violated:
+            raise Inconclusive("the model does not refute a control: %s" % xres[i].out[-1500:])
+        if not want:
+            require_clean(run, xres[i], "InputsBig_MC / InputsBuf")
+    run.cov["broken_designs_refuted"] += ["InputsBuf reuse=always (a buffer whose last byte ends a line is recycled in place)",
+                                          "InputsBig_MC CtlNoDivides", "InputsBuf NeverFullAndConsumed (coverage)"]
     vec_path = os.path.join(run.scratch, "c06-vectors.ndjson")
     nvec = 0
     classes = {}
@@ -210,11 +269,16 @@ def check(run):
                           "fifo" if any(n["p"][0] != 47 for n in pipes) else None,
                           "fifo-gzip" if any(n["p"][0] != 47 and n["k"] == "gz" for n in pipes) else None,
                           "fifo-magic-not-gzip" if any(n["k"] == "file" and n["data"][:2] == [31, 139] for n in pipes) else None,
-                          "dev-stdin-or-fd" if any(n["p"][0] == 47 for n in v["tree"]) else None):
+                          "dev-stdin-or-fd" if any(n["p"][0] == 47 for n in v["tree"]) else None,
+                          "multi-member-gzip" if any(n["k"] == "mgz" for n in v["tree"]) and v["gz"] else None,
+                          "member-empty" if any(n["k"] == "mgz" and 0 in n["mem"] for n in v["tree"]) else None,
+                          "walk-past-nonregular" if e["nfree"] else None,
+                          "walk-past-fifo" if e["nfree"] and pipes else None):
                     if c:
                         classes[c] = classes.get(c, 0) + 1
     need = ["exit0-none", "exit1-none", "exit2-read", "exit2-parse", "read+parse", "partial", "stdin",
-            "multi-mention", "literal-fallback", "fifo", "fifo-gzip", "fifo-magic-not-gzip", "dev-stdin-or-fd"]
+            "multi-mention", "literal-fallback", "fifo", "fifo-gzip", "fifo-magic-not-gzip", "dev-stdin-or-fd",
+            "multi-member-gzip", "member-empty", "walk-past-nonregular", "walk-past-fifo"]
     if nvec < 3000 or any(c not in classes for c in need):
         raise Inconclusive("generator produced %d vectors, classes %s" % (nvec, classes))
     run.cov["b1_vector_classes"] = classes
@@ -247,10 +311,45 @@ def check(run):
                           " ".join(m["argv"]), [(bytes(n["p"]).decode("latin1"), n["k"], n["tr"]) for n in sc["tree"]],
                           m["detail"], m["stderr"][:400].replace("\n", " / ")), m)
 
+    big = json.load(open(big_out))
+    if not big["runs"] or not big["on_boundary"] or not big["near_boundary"] or big["rendered"] < 20:
+        raise Inconclusive("the corpus of big inputs is vacuous: %s" % {k: v for k, v in big.items() if k != "mismatches"})
+    run.cov["traces_validated_against_impl"] += big["runs"]
+    run.cov["evaluations"] += big["runs"]
+    run.cov["distinct_nontrivial"] += big["on_boundary"] + big["near_boundary"]
+    run.cov["big_inputs"] = {k: v for k, v in big.items() if k != "mismatches"}
+    seen_big = set()
+    for m in big["mismatches"]:
+        sig = "big:%s:%s" % (m["kind"], m["class"])
+        if sig in seen_big:        # one report per class (a broken build disagrees on every window size)
+            continue
+        seen_big.add(sig)
+        run.violation(sig, "`rare %s` over inputs %s: %s; stderr: %s" % (
+            " ".join(m["argv"]), [(bytes(x["name"]).decode("latin1"), x["k"], x["via"], x["g"], x["mem"]) for x in m["vector"]["run"]["ins"]],
+            m["detail"][:700], m["stderr"][:300].replace("\n", " / ")), m)
+
     # ---- stage 3: TLC validates every recorded observation (B1 records, B2 random records, descriptor-limit records)
     rls = [f.result() for f in life_fs]
     bg.shutdown()
     vres = validate(run, [("b1t", rep_tr), ("b2", rnd_tr), ("fd", fd_tr)], 6 if quick else 12)
+    bres, _ = validate_traces(run, "InputsBig_Trace", big_tr, label="InputsBig_Trace", xmx="3g")
+    if not bres.get("done") or bres["consumed"] != big["runs"] or bres["skipped"]:
+        raise Inconclusive("validation of the big-input records incomplete: %s" % {k: bres.get(k) for k in ("done", "consumed", "skipped")})
+    if bres["bad"]:
+        recs = {}
+        for line in open(big_tr):
+            rec = json.loads(line)
+            recs[rec["t"]] = rec
+        for b in bres["bad"]:
+            rec = recs[b["t"]]
+            sig = "bigt:%s:%s%s" % ("+".join(sorted(b["why"])), "+".join("%s/%s" % (x["k"], x["via"]) for x in rec["ins"]), ",z" if rec["gz"] else "")
+            if sig in seen_big:
+                continue
+            seen_big.add(sig)
+            run.violation(sig, "run over big inputs %s (z=%s readers=%d batch=%d) is not explained by InputsBig.tla: disagreeing observables %s; "
+                          "observed %s" % ([(bytes(x["name"]).decode("latin1"), x["k"], x["via"], x["g"]) for x in rec["ins"]], rec["gz"],
+                                           rec["readers"], rec["batch"], b["why"], json.dumps(rec["obs"])[:600]),
+                          run.save_replay("big-record-%d.json" % b["t"], rec))
     n2, sk2 = vres["b2"]
     if vres["b1t"][1]:
         raise Inconclusive("%d generated scenarios are outside the specification's own domain" % vres["b1t"][1])
